@@ -36,7 +36,8 @@ class Arch {
   Arch(FromRat, Rat v) : _v(std::move(v)) {}
 
  public:
-  Arch() : _v(0) {}
+  // a default-constructed scalar has NO documented value: poison it, so that code relying on T() == 0 is exposed
+  Arch() : _v(Rat(boost::multiprecision::cpp_int("982451653"), boost::multiprecision::cpp_int("1000003"))) {}
   Arch(const Arch &) = default;
   Arch(Arch &&) = default;
   Arch &operator=(const Arch &) = default;
@@ -86,7 +87,7 @@ class WrapD {
   WrapD(Raw, double v) : _v(v) {}
 
  public:
-  WrapD() : _v(0) {}
+  WrapD() : _v(std::numeric_limits<double>::quiet_NaN()) {}   // no documented default value: poison
   WrapD(const WrapD &) = default;
   WrapD &operator=(const WrapD &) = default;
   template <typename I, std::enable_if_t<std::is_integral_v<I>, bool> = true>
